@@ -66,7 +66,7 @@ def monitor(obs, own_parity):
             if s['own_term'] in ('ERROR', 'CANCEL'):
                 kind = 'channel-half-close' if s['t'] == 'ch' else 'emission'
                 out.append(('%s:emits-%s-after-own-%s' % (kind, ty, s['own_term']), where))
-            elif s['own_term'] == 'done' or (s['own_complete'] and s['peer_complete'] and not (s['t'] == 'rr' and s['role'] == 'resp') and not (s['t'] == 'st' and s['role'] == 'req')):
+            elif s['own_term'] == 'done' or (s['own_complete'] and s['peer_complete'] and not (s['t'] == 'rr' and s['role'] == 'resp')):
                 out.append(('emission-after-both-directions-complete:' + ty, where))
             elif ty == 'PAYLOAD' and s['own_complete'] and s['role'] == 'resp' or (ty == 'PAYLOAD' and s['t'] == 'ch' and s['own_complete']):
                 out.append(('payload-after-own-complete', where))
